@@ -322,7 +322,277 @@ def _desugar_properties(mods):
                 R().visit(m2.tree)
             c.body = [s2 for s2 in c.body if s2 is not g and s2 is not st_]
             done = True
+    # a read-only property that is one expression of the object's fields (`is_dead = reach_probability == 0`) is that expression
+    # wherever it is read - when the name is nobody's attribute or method otherwise and the receiver is a plain name / field path
+    stored = set()
+    meths = {}
+    for m in mods.values():
+        for n in ast.walk(m.tree):
+            if isinstance(n, ast.Attribute) and isinstance(n.ctx, (ast.Store, ast.Del)):
+                stored.add(n.attr)
+            if isinstance(n, ast.ClassDef):
+                for s2 in n.body:
+                    if isinstance(s2, ast.FunctionDef):
+                        meths.setdefault(s2.name, []).append((n, s2))
+    ro = {}
+    for name, defs in meths.items():
+        if len(defs) != 1 or name in stored:
+            continue
+        cdef, fn = defs[0]
+        if not (len(fn.decorator_list) == 1 and isinstance(fn.decorator_list[0], ast.Name) and fn.decorator_list[0].id == "property"):
+            continue
+        body = [b for b in fn.body if not (isinstance(b, ast.Expr) and isinstance(b.value, ast.Constant))]
+        if len(body) != 1 or not isinstance(body[0], ast.Return) or body[0].value is None or len(fn.args.args) != 1:
+            continue
+        me = fn.args.args[0].arg
+        e = body[0].value
+        if any(isinstance(x, (ast.Call, ast.Lambda, ast.ListComp, ast.GeneratorExp, ast.SetComp, ast.DictComp, ast.Yield, ast.Await, ast.NamedExpr)) for x in ast.walk(e)):
+            continue
+        names = {x.id for x in ast.walk(e) if isinstance(x, ast.Name)}
+        if not names <= {me} | {k for mm in mods.values() for k in mm.consts} | {"True", "False", "None"}:
+            continue
+        if not all(isinstance(getattr(x, "parent", None), ast.Attribute) or True for x in ast.walk(e)):
+            continue
+        ro[name] = (me, e, cdef, fn)
+    if ro:
+        class RO(ast.NodeTransformer):
+            def visit_Attribute(self, n):
+                self.generic_visit(n)
+                if isinstance(n.ctx, ast.Load) and n.attr in ro and (isinstance(n.value, ast.Name) or (isinstance(n.value, (ast.Attribute, ast.Subscript)))):
+                    me, e, _, _ = ro[n.attr]
+                    recv = n.value
+
+                    class S(ast.NodeTransformer):
+                        def visit_Name(self, x):
+                            return _copy.deepcopy(recv) if x.id == me else x
+                    new = S().visit(_copy.deepcopy(e))
+                    for x in ast.walk(new):
+                        ast.copy_location(x, n)
+                    return new
+                return n
+        for m in mods.values():
+            RO().visit(m.tree)
+        for name, (_, _, cdef, fn) in ro.items():
+            cdef.body = [b for b in cdef.body if b is not fn] or [ast.Pass()]
+        done = True
     if done:
+        for m in mods.values():
+            ast.fix_missing_locations(m.tree)
+            add_parents(m.tree)
+            m.funcs, m.classes, m.consts, m.imports = {}, {}, {}, {}
+            m._index()
+
+
+def _class_constants(mods):
+    """A class-level constant (`PLAYERS_WITH_PRUNABLE_PATHS = (PLAYER_1, PROBABILISTIC)`, assigned once in the class body,
+    an immutable expression of literals and module constants, never stored through an attribute anywhere) is its value
+    wherever it is read through `self.`/`cls.`/the class name."""
+    import copy as _copy
+    stored = set()
+    for m in mods.values():
+        for n in ast.walk(m.tree):
+            if isinstance(n, ast.Attribute) and isinstance(n.ctx, (ast.Store, ast.Del)):
+                stored.add(n.attr)
+            if isinstance(n, ast.Call) and isinstance(n.func, ast.Name) and n.func.id in ("setattr", "delattr") and len(n.args) >= 2:
+                if isinstance(n.args[1], ast.Constant) and isinstance(n.args[1].value, str):
+                    stored.add(n.args[1].value)
+                # a computed name: the fields of the objects the program iterates (`for f in FIELDS: setattr(s, f, ..)`), never
+                # the upper-case constants of a class - those are excluded below by their spelling
+    dynamic_store = any(isinstance(n, ast.Call) and isinstance(n.func, ast.Name) and n.func.id in ("setattr", "delattr")
+                        and not (len(n.args) >= 2 and isinstance(n.args[1], ast.Constant)) for m in mods.values() for n in ast.walk(m.tree))
+    modnames = set()
+    for m in mods.values():
+        modnames |= set(m.consts)
+    classnames = {c for m in mods.values() for c in m.classes}
+
+    def immutable(e):
+        if isinstance(e, ast.Constant):
+            return True
+        if isinstance(e, ast.Name):
+            return e.id in modnames and e.id not in classnames
+        if isinstance(e, ast.Tuple):
+            return all(immutable(x) for x in e.elts)
+        if isinstance(e, ast.UnaryOp):
+            return immutable(e.operand)
+        if isinstance(e, ast.BinOp):
+            return immutable(e.left) and immutable(e.right)
+        return False
+    table = {}
+    dup = set()
+    for m in mods.values():
+        for c in ast.walk(m.tree):
+            if not isinstance(c, ast.ClassDef):
+                continue
+            for st in c.body:
+                tgt = None
+                if isinstance(st, ast.Assign) and len(st.targets) == 1 and isinstance(st.targets[0], ast.Name):
+                    tgt, val = st.targets[0].id, st.value
+                elif isinstance(st, ast.AnnAssign) and isinstance(st.target, ast.Name) and st.value is not None:
+                    tgt, val = st.target.id, st.value
+                if tgt is None:
+                    continue
+                if tgt in table:
+                    dup.add(tgt)
+                if immutable(val) and tgt not in stored and (tgt.isupper() or not dynamic_store):
+                    table[tgt] = (c, st, val)
+                else:
+                    dup.add(tgt)
+    # a method or another binding of the same name anywhere makes the name ambiguous
+    for m in mods.values():
+        for n in ast.walk(m.tree):
+            if isinstance(n, (ast.FunctionDef, ast.ClassDef)) and n.name in table:
+                dup.add(n.name)
+    table = {k: v for k, v in table.items() if k not in dup}
+    if not table:
+        return
+
+    class T(ast.NodeTransformer):
+        def visit_Attribute(self, n):
+            self.generic_visit(n)
+            if isinstance(n.ctx, ast.Load) and n.attr in table and isinstance(n.value, ast.Name):
+                c = table[n.attr][0]
+                if n.value.id in ("self", "cls", c.name) or n.value.id in classnames:
+                    new = _copy.deepcopy(table[n.attr][2])
+                    for x in ast.walk(new):
+                        ast.copy_location(x, n)
+                    return new
+            return n
+    for m in mods.values():
+        T().visit(m.tree)
+        ast.fix_missing_locations(m.tree)
+        add_parents(m.tree)
+        m.funcs, m.classes, m.consts, m.imports = {}, {}, {}, {}
+        m._index()
+
+
+def _unroll_field_loops(mods):
+    """Field names iterated as data: `[getattr(s, f) for f in ("a", "b")]`, `for f, v in zip(("a", "b"), vals): setattr(s, f, v)`.
+    A loop / comprehension over a constant tuple of identifiers whose variable is used as the name argument of getattr / setattr
+    is written out, and getattr / setattr with a literal name become plain field accesses."""
+    import copy as _copy
+
+    def const_names(m, e):
+        if isinstance(e, ast.Name) and e.id in m.consts:
+            e = m.consts[e.id]
+        if isinstance(e, (ast.Tuple, ast.List)) and e.elts and len(e.elts) <= 8 and all(
+                isinstance(x, ast.Constant) and isinstance(x.value, str) and x.value.isidentifier() for x in e.elts):
+            return [x.value for x in e.elts]
+        return None
+
+    def uses_as_field(node, var):
+        for n in ast.walk(node):
+            if isinstance(n, ast.Call) and isinstance(n.func, ast.Name) and n.func.id in ("getattr", "setattr") and len(n.args) >= 2 \
+                    and isinstance(n.args[1], ast.Name) and n.args[1].id == var:
+                return True
+        return False
+
+    def subst(node, mapping):
+        class S(ast.NodeTransformer):
+            def visit_Name(self, n):
+                if isinstance(n.ctx, ast.Load) and n.id in mapping:
+                    return ast.copy_location(_copy.deepcopy(mapping[n.id]), n)
+                return n
+        return S().visit(_copy.deepcopy(node))
+
+    def rebinds(node, names):
+        return any(isinstance(n, ast.Name) and isinstance(n.ctx, ast.Store) and n.id in names for n in ast.walk(node))
+    changed = False
+    for m in mods.values():
+        class T(ast.NodeTransformer):
+            def visit_For(self, n):
+                self.generic_visit(n)
+                if n.orelse or any(isinstance(x, (ast.Break, ast.Continue)) for b in n.body for x in ast.walk(b)):
+                    return n
+                names, rows = None, None
+                if isinstance(n.target, ast.Name):
+                    names = const_names(m, n.iter)
+                    if names and uses_as_field(n, n.target.id) and not any(rebinds(b, {n.target.id}) for b in n.body):
+                        rows = [{n.target.id: ast.Constant(value=c)} for c in names]
+                elif isinstance(n.target, ast.Tuple) and len(n.target.elts) == 2 and all(isinstance(e, ast.Name) for e in n.target.elts) \
+                        and isinstance(n.iter, ast.Call) and isinstance(n.iter.func, ast.Name) and n.iter.func.id == "zip" and len(n.iter.args) == 2 and not n.iter.keywords:
+                    a, b = n.iter.args
+                    for pos, (ka, kb) in enumerate(((a, b), (b, a))):
+                        names = const_names(m, ka)
+                        fld = n.target.elts[pos].id
+                        oth = n.target.elts[1 - pos].id
+                        if names and uses_as_field(n, fld) and isinstance(kb, (ast.Name, ast.Tuple, ast.List)) \
+                                and not any(rebinds(b_, {fld, oth}) for b_ in n.body):
+                            if isinstance(kb, ast.Name):
+                                vals = [ast.Subscript(value=ast.Name(id=kb.id, ctx=ast.Load()), slice=ast.Constant(value=i), ctx=ast.Load()) for i in range(len(names))]
+                            elif len(kb.elts) == len(names) and not any(isinstance(e, ast.Starred) for e in kb.elts):
+                                vals = list(kb.elts)
+                            else:
+                                continue
+                            rows = [{fld: ast.Constant(value=c), oth: v} for c, v in zip(names, vals)]
+                            break
+                if not rows:
+                    return n
+                out = []
+                for row in rows:
+                    for b in n.body:
+                        nb = subst(b, row)
+                        for x in ast.walk(nb):
+                            ast.copy_location(x, n) if not hasattr(x, "lineno") else None
+                        out.append(nb)
+                nonlocal changed
+                changed = True
+                return out
+
+            def _compr(self, n):
+                self.generic_visit(n)
+                if len(n.generators) != 1:
+                    return n
+                g = n.generators[0]
+                names = const_names(m, g.iter)
+                if not (names and isinstance(g.target, ast.Name) and not g.ifs and uses_as_field(n.elt, g.target.id)):
+                    return n
+                elts = [subst(n.elt, {g.target.id: ast.Constant(value=c)}) for c in names]
+                nonlocal changed
+                changed = True
+                new = (ast.List if isinstance(n, ast.ListComp) else ast.Tuple)(elts=elts, ctx=ast.Load())
+                return ast.copy_location(new, n)
+
+            def visit_ListComp(self, n):
+                return self._compr(n)
+
+            def visit_GeneratorExp(self, n):
+                p = getattr(n, "parent", None)
+                # only where a tuple is the same thing: unpacked, or handed to tuple()/list()
+                if isinstance(p, ast.Assign) and p.value is n and isinstance(p.targets[0], (ast.Tuple, ast.List)):
+                    return self._compr(n)
+                if isinstance(p, ast.Call) and isinstance(p.func, ast.Name) and p.func.id in ("tuple", "list") and p.args == [n]:
+                    return self._compr(n)
+                self.generic_visit(n)
+                return n
+
+            def visit_Call(self, n):
+                self.generic_visit(n)
+                if isinstance(n.func, ast.Name) and n.func.id == "getattr" and len(n.args) == 2 and not n.keywords \
+                        and isinstance(n.args[1], ast.Constant) and isinstance(n.args[1].value, str) and n.args[1].value.isidentifier():
+                    nonlocal changed
+                    changed = True
+                    return ast.copy_location(ast.Attribute(value=n.args[0], attr=n.args[1].value, ctx=ast.Load()), n)
+                if isinstance(n.func, ast.Name) and n.func.id in ("tuple", "list") and len(n.args) == 1 and isinstance(n.args[0], ast.Tuple) \
+                        and getattr(n.args[0], "_from_gen", False):
+                    return n
+                return n
+
+            def visit_Expr(self, n):
+                self.generic_visit(n)
+                c = n.value
+                if isinstance(c, ast.Call) and isinstance(c.func, ast.Name) and c.func.id == "setattr" and len(c.args) == 3 and not c.keywords \
+                        and isinstance(c.args[1], ast.Constant) and isinstance(c.args[1].value, str) and c.args[1].value.isidentifier():
+                    nonlocal changed
+                    changed = True
+                    return ast.copy_location(ast.Assign(targets=[ast.Attribute(value=c.args[0], attr=c.args[1].value, ctx=ast.Store())], value=c.args[2]), n)
+                return n
+        if not any(isinstance(x, ast.Name) and x.id in ("getattr", "setattr") for x in ast.walk(m.tree)):
+            continue
+        if any(isinstance(x, ast.Name) and isinstance(x.ctx, ast.Store) and x.id in ("getattr", "setattr") for x in ast.walk(m.tree)):
+            continue
+        add_parents(m.tree)
+        T().visit(m.tree)
+    if changed:
         for m in mods.values():
             ast.fix_missing_locations(m.tree)
             add_parents(m.tree)
@@ -577,6 +847,18 @@ class Program:
                 raise AnalysisError("module %s does not parse: %s" % (m, e))
         try:
             _desugar_properties(self.mods)
+        except Exception:
+            pass
+        try:
+            _class_constants(self.mods)
+        except AnalysisError:
+            raise
+        except Exception:
+            pass
+        try:
+            _unroll_field_loops(self.mods)
+        except AnalysisError:
+            raise
         except Exception:
             pass
         _structural_tuples(self.mods)
